@@ -1,12 +1,85 @@
 import Driver.Util
+import Faithful.Lib.SplitCar
+import Faithful.Lib.Hash
 open Drv
 
-namespace DrvC16
+/-! model side of the C16 line protocol (both harness runs: package splitcarfetcher and package main)
 
-/-- model side of the C16 line protocol: one answer line per op line -/
+  case …                                              → ok
+  segs  <hex>…                                        → ok <n> <total>        NewMultiReaderAt, sizes = lengths
+  msegs <size>:<hex>…                                 → ok <n> <total>        NewMultiReaderAt, explicit size table
+  read  <off> <len> [@tag]                            → <hex> eof|noeof       MultiReaderAt.ReadAt
+  scr   <recordedHeaderSize> <headerhex> <k>:<hs>:<cs>:<filehex>…   (k = f local file | m in-memory)
+                                                      → ok <nsegs> | err:header | err:piece-size:<i>
+  sread <off> <len> [@tag]                            → <hex> eof|noeof | noreader
+  split <id> hdr=<n> maxlinks=<n> target=<n> dags=<a+b,c+d+e,…>
+                                                      → pieces <n> <HeaderSize>:<ContentSize>:<ndags>:<nsections>… | panic
+  answers longer than 64 bytes are printed as  n=<len> h=<xxhash64>  -/
+
+namespace DrvC16
+open SplitCar
+
+structure St where
+  segs : List Seg := []
+  rd : Option Reader := none
+
+def showRead (r : Bytes × Bool) : String :=
+  let b := if r.1.length ≤ 64 then hex r.1 else s!"n={r.1.length} h={hexNat (H.xxhash64 r.1).toNat 16}"
+  b ++ (if r.2 then " eof" else " noeof")
+
+def parseSized (w : String) : Seg :=
+  match w.splitOn ":" with
+  | [n, h] => ⟨unhex h, n.toNat!⟩
+  | _ => ⟨[], 0⟩
+
+def parsePiece (w : String) : PieceIn :=
+  match w.splitOn ":" with
+  | [k, hs, cs, f] => ⟨if k = "f" then .file else .mem, hs.toNat!, cs.toNat!, unhex f⟩
+  | _ => ⟨.mem, 0, 0, []⟩
+
+def kv (w pre : String) : Option String :=
+  if w.startsWith pre then some ((w.drop pre.length).toString) else none
+
+def parseDags (s : String) : List (List Nat) :=
+  if s = "" then [] else (s.splitOn ",").map fun d => (d.splitOn "+").map String.toNat!
+
+def step (st : St) (l : String) : St × String :=
+  match words l with
+  | "case" :: _ => (st, "ok")
+  | "segs" :: hs =>
+    let segs := hs.map fun h => Seg.exact (unhex h)
+    ({ st with segs := segs }, s!"ok {segs.length} {(segs.map Seg.size).sum}")
+  | "msegs" :: ws =>
+    let segs := ws.map parseSized
+    ({ st with segs := segs }, s!"ok {segs.length} {(segs.map Seg.size).sum}")
+  | "read" :: o :: n :: _ => (st, showRead (readAt st.segs o.toInt! n.toNat!))
+  | "scr" :: hsz :: hdr :: ps =>
+    match newReader ⟨unhex hdr, hsz.toNat!⟩ (ps.map parsePiece) with
+    | .ok r => ({ st with rd := some r }, s!"ok {r.segs.length}")
+    | .error .header => ({ st with rd := none }, "err:header")
+    | .error (.pieceSize i) => ({ st with rd := none }, s!"err:piece-size:{i}")
+  | "sread" :: o :: n :: _ =>
+    match st.rd with
+    | some r => (st, showRead (r.readAt o.toInt! n.toNat!))
+    | none => (st, "noreader")
+  | ["split", _, a, b, c, d] =>
+    match kv a "hdr=", kv b "maxlinks=", kv c "target=", kv d "dags=" with
+    | some hdr, some ml, some tg, some ds =>
+      let hdr := hdr.toNat!
+      match splitCmd List.sum hdr tg.toNat! ml.toNat! (parseDags ds) with
+      | none => (st, "panic")
+      | some ps =>
+        let body := ps.map fun p => s!" {hdr}:{p.contentSize hdr}:{p.dags.length}:{(p.dags.map List.length).sum}"
+        (st, s!"pieces {ps.length}" ++ String.join body)
+    | _, _, _, _ => (st, "bad-op")
+  | _ => (st, "bad-op")
+
 def run (lines : Array String) : IO Unit := do
   let out ← IO.getStdout
-  for _ in lines do
-    out.putStrLn "unimplemented"
+  let mut st : St := {}
+  for l in lines do
+    let (st', o) := step st l
+    st := st'
+    out.putStrLn o
 
 end DrvC16
